@@ -429,6 +429,13 @@ pub fn gen_scn(d: &Data, r: &mut Rng, faulty: bool) -> Scn {
         files.insert("extra/junk.dat".into(), "\u{0}\u{1}binary".into());
         meaning.insert("extra/junk.dat".into(), Meaning::Other);
     }
+    // decoys for directory discovery: names that merely look like word / rule / json files
+    for (name, text) in [("notes.wsca~", "zzz\n"), ("old.rsca.bak", "@ Old\n    a > zzz\n"), ("W2.WSCA", "zzz\n"), ("p.json.orig", "{}"), ("rsca", "a > zzz\n")] {
+        if r.chance(1, 6) {
+            files.insert(name.to_string(), text.to_string());
+            meaning.insert(name.to_string(), Meaning::Other);
+        }
+    }
     if r.chance(1, 2) {
         dirs.push("o".into());
     }
